@@ -182,7 +182,9 @@ func containsType(s types.Type, t types.Type, depth int) bool {
 // containerTags: the allocation tags an object reachable through a *T may
 // carry (T itself, or any struct of the module that embeds a T by value).
 func (p *Prog) containerTags(t types.Type) []int {
-	if _, ok := t.Underlying().(*types.Struct); !ok {
+	switch t.Underlying().(type) {
+	case *types.Struct, *types.Basic:
+	default:
 		return nil
 	}
 	out := []int{p.tagOf(t)}
